@@ -351,6 +351,7 @@ class Unit:
                     # a precondition marked entry_only is about machine arithmetic at the entry call (e.g. a depth counter) and is
                     # not part of the induction hypothesis; it is reported as an assumption of the unit
                     rit["requires"] = [c for c in rit.get("requires", []) if not (isinstance(c, dict) and c.get("entry_only"))]
+                    rit["ensures"] = list(it.get("ensures", []))  # including rec_only clauses (assumed about the recursive calls)
                     rit["rename"] = splice.FnShape(text).name + "__rec"
                     rit["proved_by"] = ""
                     gen.add("// ---- R-REC: induction hypothesis for the recursive calls (same contract; termination not proved)", ("gen", "item-header"))
@@ -403,7 +404,7 @@ class Unit:
                     self.obligations.append(Obligation(oname, kind, fn_id, c["alarm"], _one_line(txt)))
 
         req = clause_list(it.get("requires"))
-        ens = clause_list(it.get("ensures"))
+        ens = clause_list([c for c in it.get("ensures", []) if role == "rec" or not (isinstance(c, dict) and c.get("rec_only"))])
         add_clauses("requires", req, "R")
         if is_twin:
             spec_lines.append(("    ensures", ("gen", "kw")))
